@@ -25,7 +25,7 @@
 
    Not modelled: a requester that returns an error (deserialisation of data whose hash
    was requested fails; cannot happen for data below a well-formed trusted root), a
-   failing database other than a failing Set inside OnData (on_data_fail), the nil-key guard of RequestData (the trie never asks for an empty
+   failing database other than a failing Set / a failing requester inside OnData (on_data_fail), the nil-key guard of RequestData (the trie never asks for an empty
    hash), buckets without a hasher other than through ONoHasher, Flush(false) (discards
    the buffered nodes by design; the sync code only calls Flush(true)), locking.
 
@@ -144,17 +144,30 @@ Section Builder.
         ({| dbs := fst r; pending := remove_req (fst (snd r)) h; resolved := S (resolved s) |}, ROk)
     end.
 
-  (* OnData in which the database write of the i-th requester (0-based) FAILS (bk.Set returns
-     an error: OnData returns it at once).  The requesters before it have been served (value
-     stored in their bucket, their references requested); nothing else happens: the request
-     stays in the list and in the map, resolved is not incremented. *)
-  Definition on_data_fail (s : state) (d : bytes) (i : nat) : state * out :=
+  (* OnData that FAILS at the i-th requester (0-based) and returns the error at once.
+       k = None    bk.Set of that requester returns an error;
+       k = Some n  its value was stored, then requester.OnData returned an error after it had
+                   registered the first n of its references (branch.resolve requests the
+                   child slots before it resolves the branch value; a value object's Resolve
+                   can fail on a store read).
+     The requesters before i have been served completely; nothing else happens: the request
+     stays in the list and in the map with all its requesters, resolved is not incremented. *)
+  Definition deliver_part (d h : bytes) (acc : db * (list req * option bytes)) (bk : N) (n : nat)
+    : db * (list req * option bytes) :=
+    let x := db_put (fst acc) (bk, h) d in
+    (x, fold_left (req_missing x) (firstn n (children bk d)) (snd acc)).
+
+  Definition on_data_fail (s : state) (d : bytes) (i : nat) (k : option nat) : state * out :=
     let h := H d in
     match find_req (pending s) h with
     | None => (s, RNoRequester)
     | Some bks =>
         let r := fold_left (deliver_one d h) (firstn i bks) (dbs s, (pending s, Some h)) in
-        ({| dbs := fst r; pending := fst (snd r); resolved := resolved s |}, RFail)
+        let r' := match k, nth_error bks i with
+                  | Some n, Some bk => deliver_part d h r bk n
+                  | _, _ => r
+                  end in
+        ({| dbs := fst r'; pending := fst (snd r'); resolved := resolved s |}, RFail)
     end.
 
   (* trie.Resolve(builder) on a trie opened on builder.Database() with root hash snd r
